@@ -1,5 +1,6 @@
 import PlushModel
 import PlushProofs.Lib.EvalPaths
+import PlushModel.Gen.EvalDispatch
 import PlushProofs.Lib.EvalIndexTail
 /-!
   C11 — path access returns exactly what Go navigation would, or fails; never another element.
@@ -161,6 +162,15 @@ theorem C11_index_tail_is_evalIndex (f : Nat) (l i : Option Expr) (t : Token) (c
       let elem ← accessIndex left index false
       if (← mapKeyMissing left index) then pure .nil else indexTail f t cv name elem) :=
   evalIndex_tail_eq f l i t cv name
+
+/-- index read and index write do not look through pointers (translated from `evalAccessIndex` / `evalUpdateIndex`
+    on every run): an index applied to a pointer — also a pointer to a map or slice — is an error, in Go and in the
+    model, never an element and never a panic -/
+theorem C11_index_does_not_dereference (t : String) (p : Option Val) (i : Val) (h : Bool) (s : ES) :
+    Gen.evalAccessIndexDerefsPointer = false ∧ Gen.evalUpdateIndexDerefsPointer = false ∧
+    Gen.evalAccessIndexKinds = [["reflect.Map"], ["reflect.Array", "reflect.Slice"]] ∧
+    accessIndex (.ptr t p) i h s = (.err { kind := "could-not-index" }, s) :=
+  ⟨rfl, rfl, rfl, rfl⟩
 
 /-- non-vacuity: `u.Boss.Name` on `u = &User{Name: "ann", Boss: &User{Name: "bo", Boss: nil}}` is "bo", and
     `u.Boss.Boss.Name` is nil (a member of a nil pointer field) -/
